@@ -11,9 +11,10 @@ and the ValidateBasic rules of modules/coinswap/types/{msgs,validation,params}.g
   every formula site lists its intermediates in a `…Fits` guard and a failed guard is a panic,
   which reverts the transaction.  All operands are non-negative at these sites, so the guards
   are written over ℕ (`ck_eq_chkInt` ties them to `Irismod.Sdk.I256`).
-* The model follows the code as it is.  In particular both legs of a routed (token→token) swap
-  call `swapCoins sender recipient …` (swap.go:127,142 / 259,262), so the first leg pays the
-  intermediate standard coin to the *recipient* and the second leg takes it from the *sender*.
+* The model follows the code as it is.  A routed (token→token) swap is two `swapCoins` legs: the
+  first pays the intermediate standard coin back to the *sender* (`swapCoins sender sender …`,
+  swap.go:129 / 263, since fix f20f96d), the second takes it from the sender and pays the bought
+  coin to the recipient (`swapCoins sender recipient …`, swap.go:144 / 266).
 * Error classes are the ABCI `codespace/code` pairs the real message router returns
   (`vb:` prefix = rejected by `ValidateBasic`).
 -/
@@ -190,12 +191,12 @@ def tradeOut (s : State) (sender rcpt : Addr) (inD : Denom) (maxIn : Nat) (outD 
   | .ok sold =>
     if maxIn < sold then rej "coinswap/8" else swapCoins s sender rcpt inD sold outD outA
 
-/-- `doubleTradeExactInputForOutput`: both legs `swapCoins sender rcpt` as in the code -/
+/-- `doubleTradeExactInputForOutput`: first leg back to the sender, second leg to the recipient -/
 def doubleIn (s : State) (sender rcpt : Addr) (inD : Denom) (inA : Nat) (outD : Denom) (minOut : Nat) : Except Err State :=
   match calcIn s inD inA s.std with
   | .error e => .error e
   | .ok k =>
-    match swapCoins s sender rcpt inD inA s.std k with
+    match swapCoins s sender sender inD inA s.std k with
     | .error e => .error e
     | .ok s1 =>
       match calcIn s1 s.std k outD with
@@ -212,7 +213,7 @@ def doubleOut (s : State) (sender rcpt : Addr) (inD : Denom) (maxIn : Nat) (outD
     | .error e => .error e
     | .ok sold =>
       if maxIn < sold then rej "coinswap/8"
-      else match swapCoins s sender rcpt inD sold s.std k with
+      else match swapCoins s sender sender inD sold s.std k with
         | .error e => .error e
         | .ok s1 => swapCoins s1 sender rcpt s.std k outD outA
 
@@ -373,11 +374,6 @@ def stepDonate (s : State) (src dst : Addr) (d : Denom) (a : Nat) : R :=
     | none => rej "sdk/5"
     | some b => .ok ({ s with bank := b }, [])
 
-/-- `Params.Validate` -/
-def validParams (p : Params) : Bool :=
-  decide (0 < p.fee) && decide (p.fee < D) && decide (0 < p.pcfAmt) &&
-  decide (0 < p.tax) && decide (p.tax < D) && decide (p.ufee < D)
-
 /-- `msgServer.UpdateParams` (after ValidateBasic = `Params.Validate`) -/
 def stepParams (s : State) (auth : Addr) (p : Params) : R :=
   if auth ≠ govAddr then rej "sdk/4" else .ok ({ s with params := p }, [])
@@ -458,8 +454,10 @@ def vb : Op → Option String
   | .rem1 sender cp minD minA lptA dl =>
     firstErr [(if cp = "" then some "vb:sdk/18" else none), vbToken minD minA,
               (if lptA < 0 then some "vb:sdk/18" else none), vbDeadline dl, vbSender sender]
-  | .setParams auth fee tax ufee _ pcfA =>
-    if validAddr auth ∧ 0 < fee ∧ fee < D ∧ 0 < pcfA ∧ 0 < tax ∧ tax < D ∧ 0 ≤ ufee ∧ ufee < D then none else some "invalid"
+  | .setParams auth fee tax ufee pcfD pcfA =>
+    -- `Params.Validate`: fee, tax in (0,1), one-sided fee in [0,1), creation fee positive with a valid denom
+    if validAddr auth ∧ 0 < fee ∧ fee < D ∧ 0 < pcfA ∧ validDenom pcfD = true ∧ 0 < tax ∧ tax < D ∧ 0 ≤ ufee ∧ ufee < D
+    then none else some "invalid"
 
 /-- one delivered message: `ValidateBasic`, then the handler -/
 def step (s : State) (op : Op) : R :=
